@@ -20,6 +20,7 @@ import (
 	"time"
 
 	dtlsstate "github.com/pion/dtls/v3/internal/state"
+	"github.com/pion/dtls/v3/internal/verifhook"
 	"github.com/pion/dtls/v3/pkg/protocol/recordlayer"
 )
 
@@ -337,6 +338,106 @@ func vfC09StressRun(res *vfResult, sc vfC09Stress, iter int) {
 		}
 	}
 	res.Seen("emission_order_fingerprints", vfShortHash(fp))
+	p.Close()
+}
+
+// vfAtPauses: handshake configuration -> handler for the tag-guarded instrumentation points of that connection.
+var (
+	vfAtPauses  sync.Map
+	vfAtInstall sync.Once
+)
+
+func vfPauseAt(key any, f func(point string)) {
+	vfAtInstall.Do(func() {
+		verifhook.SetAt(func(key any, point string) {
+			if h, ok := vfAtPauses.Load(key); ok {
+				h.(func(string))(point) //nolint:forcetypeassert
+			}
+		})
+	})
+	vfAtPauses.Store(key, f)
+}
+
+// vfC09PathValidationOrder (real scheduler): a Write of the observed endpoint has taken its record number and is held
+// just before the socket write when a record from a new address makes the read loop send a path challenge. Record
+// numbers increase in emission order "across application writes ... path-validation messages ... issued from any
+// goroutines": the challenge, numbered later, must not leave before the held record.
+func vfC09PathValidationOrder(res *vfResult, iter int) {
+	res.Eval(1)
+	suite := vfSuiteByName([]string{"ECDSA-GCM128", "13-GCM128", "ECDSA-CBC", "13-CHACHA"}[iter%4])
+	cfg := vfBaseCfg(suite, "ecdsa")
+	if cfg.Suite.Auth == "tls13" {
+		cfg.CVer, cfg.SVer, cfg.HelloVerify = "13", "13", false
+	}
+	cfg.CIDc, cfg.CIDs = 4, 6
+	observed := []string{"s", "c"}[(iter/4)%2]
+	n := vfNewNet()
+	co, so := cfg.Options(nil, nil)
+	p, err := vfNewPair(n, co, so)
+	if err != nil {
+		res.Count("config_rejected", 1)
+
+		return
+	}
+	if ce, se := p.Handshake(20 * time.Second); ce != nil || se != nil {
+		p.Close()
+
+		return
+	}
+	p.C.StartPump()
+	p.S.StartPump()
+	if rt := vfRoundTrip(p, "c09p", 10*time.Second); rt != "" || !vfCommon(p.S.Conn).RRCNegotiated {
+		res.Count("path_validation_order_not_applicable", 1)
+		p.Close()
+
+		return
+	}
+	time.Sleep(50 * time.Millisecond)
+	x, y := vfSideOf(p, observed)
+	const newAddr = "10.0.7.7:7777"
+	n.Alias(newAddr, y.EP)
+	var moved atomic.Bool
+	n.SetOnSend(func(n *vfNet, w *vfWire) {
+		from := vfAddrOf(w.From)
+		if w.From == y.Name && moved.Load() {
+			from = vfAddr(newAddr)
+		}
+		n.Deliver(w.Dst, w.Data, from)
+	})
+	entered, gate := make(chan struct{}), make(chan struct{})
+	var once sync.Once
+	vfPauseAt(x.Conn.handshakeConfig, func(point string) {
+		if point == "write.datagram" {
+			hit := false
+			once.Do(func() { hit = true })
+			if hit {
+				close(entered)
+				<-gate
+			}
+		}
+	})
+	defer vfAtPauses.Delete(x.Conn.handshakeConfig)
+	wrote := make(chan struct{})
+	go func() { defer close(wrote); _, _ = x.Conn.Write([]byte("held-before-the-socket")) }()
+	select {
+	case <-entered:
+	case <-time.After(5 * time.Second):
+		close(gate)
+		res.Count("path_validation_order_hook_not_reached", 1)
+		p.Close()
+
+		return
+	}
+	moved.Store(true)
+	_, _ = y.Conn.Write([]byte("from-the-new-address")) // newest authentic record, new source: a path challenge is due
+	time.Sleep(150 * time.Millisecond)
+	close(gate)
+	<-wrote
+	time.Sleep(100 * time.Millisecond)
+	res.NonTrivial(fmt.Sprintf("path-validation-order/%s/%s/%d", suite.Name, observed, iter))
+	res.Count("path_validation_order_cases", 1)
+	vfNonceCheckPair(res, p, "path-validation-vs-held-write/"+observed, map[string]any{"scenario": "path-validation-order", "iter": iter})
+	n.SetOnSend(nil)
 	p.Close()
 }
 
@@ -780,6 +881,7 @@ func TestVF_C09(t *testing.T) {
 	scs := vfC09StressCfgs()
 	iters := vfPick(2, 12)
 	vfParallel(len(scs)*iters, func(_, i int) { vfC09StressRun(res, scs[i%len(scs)], i/len(scs)) })
+	vfParallel(vfPick(16, 64), func(_, i int) { vfC09PathValidationOrder(res, i) })
 	res.Floor("records_decoded", 1000)
 	res.Floor("stress_sessions", int64(len(scs)))
 	res.Floor("hs_completed", 50)
